@@ -381,4 +381,81 @@ int cmdStrings(int argc, char** argv) {
 	return 0;
 }
 Reg r2("c07-strings", cmdStrings);
+
+// ---- a NifFile object as a container (NifObj.tla): histories of load / create / add / assign / CopyFrom / clear / save on one
+// object X with a donor Y; at every save a fresh object with the same content (canonical construction) must write the same
+int cmdObjects(int argc, char** argv) {
+	if (argc < 3) return 2;
+	auto lines = readLines(argv[1]);
+	std::string outPath = argv[2];
+	{ Out trunc(outPath); }
+	const std::string fileA = readFile(samplePath("TestNifFile_Static_SE.nif")), fileB = readFile(samplePath("TestNifFile_Skinned_OB.nif"));
+	std::string fileU = fileA;
+	{
+		HeaderInfo h = parseHeader(fileU);
+		if (!h.ok || h.types.size() < 2 || !relabelTypes(fileU, {h.types[1]})) return 3;
+	}
+	auto bytesOf = [&](const std::string& base) -> const std::string& { return base == "A" ? fileA : (base == "B" ? fileB : fileU); };
+	// the canonical construction of a content
+	auto construct = [&](NifFile& nif, const JV& content) -> bool {
+		const std::string base = content["base"].s;
+		if (base == "none") return false;
+		if (base.compare(0, 3, "new") == 0) nif.Create(versionByName(base.substr(3)));
+		else if (loadFromString(nif, bytesOf(base)) != 0) return false;
+		MatTransform t;
+		for (long long q = 0; q < (long long) content["n"].n; q++) nif.AddNode("n" + std::to_string(q), t);
+		return true;
+	};
+	size_t chunk = 200, nchunks = (lines.size() + chunk - 1) / chunk;
+	size_t crashes = runForkedCases(
+		nchunks, outPath, 300,
+		[&](size_t ci, std::string& out) {
+			for (size_t k = ci * chunk; k < std::min(lines.size(), (ci + 1) * chunk); k++) {
+				JV rec = jparse(lines[k]);
+				NifFile X, Y;
+				if (loadFromString(Y, fileB) != 0) continue;
+				const auto& ops = rec["ops"].a;
+				for (size_t j = 0; j < ops.size(); j++) {
+					const std::string kd = ops[j]["k"].s;
+					const JV& content = rec["xs"].a[j];
+					MatTransform t;
+					if (kd == "load") loadFromString(X, bytesOf(ops[j]["f"].s));
+					else if (kd == "create") X.Create(versionByName(ops[j]["v"].s));
+					else if (kd == "add") {
+						if (X.IsValid()) X.AddNode("n" + std::to_string((long long) content["n"].n - 1), t);
+					}
+					else if (kd == "assign") X = Y;
+					else if (kd == "copyfrom") X.CopyFrom(Y);
+					else if (kd == "clear") X.Clear();
+					else if (kd == "donor") loadFromString(Y, bytesOf(ops[j]["f"].s));
+					else if (kd == "save") {
+						ContentIds ids;
+						std::string got = saveToString(X, false, false);
+						NifFile fresh;
+						bool built = construct(fresh, content);
+						std::string want = built ? saveToString(fresh, false, false) : std::string();
+						JObj ev;
+						ev.add("e", "objsave").add("case", (long long) k).add("step", (long long) j).raw("ops", toJson(rec["ops"])).raw("content", toJson(content));
+						ev.add("built", built).add("same", got == want).add("unk", X.HasUnknown()).add("freshUnk", fresh.HasUnknown());
+						size_t d = 0;
+						while (d < got.size() && d < want.size() && got[d] == want[d]) d++;
+						ev.add("firstDiff", got == want ? -1LL : (long long) d).add("len", (long long) got.size()).add("wantLen", (long long) want.size());
+						// the last save of the history: the default save of both too
+						if (j + 1 == ops.size() && built) {
+							NifFile xc(X), fc(fresh);
+							ev.add("sameDefault", saveToString(xc, true, true) == saveToString(fc, true, true));
+						}
+						else
+							ev.add("sameDefault", true);
+						ev.raw("f", fileAbstract(got, &X, ids));
+						out += ev.done() + "\n";
+					}
+				}
+			}
+		},
+		[&](size_t ci, const std::string& why, FILE* out) { fprintf(out, "{\"e\":\"crash\",\"chunk\":%zu,\"why\":%s}\n", ci, J::str(why).s.c_str()); });
+	printf("{\"cases\":%zu,\"crashes\":%zu}\n", lines.size(), crashes);
+	return 0;
+}
+Reg r3("c07-objects", cmdObjects);
 } // namespace
